@@ -310,6 +310,10 @@ class Write(Contract):
             st = bound['self'].attrs['stream']
             st.buf = M.mk_str(z3.Concat(M.sym_str(st.buf), fns.Wt(thing.e)))
             return M.mk_bool(fns.We(thing.e))
+        if not isinstance(I.active, type(self)):
+            # a concrete fragment written from another function: that caller interprets Writer.write itself
+            from pyvc.interp import InlineInstead
+            raise InlineInstead()
         return Contract.apply_at_call(self, I, bound, site, frame)
 
     def native_params(self, case):
@@ -350,8 +354,8 @@ class Write(Contract):
 
 def registry():
     from contracts import posix_shell
-    from contracts import lists
-    return posix_shell.registry() + [EscapeStr(), Write(), lists.Tween(), lists.NinjaWriteEach(), lists.NinjaWriteShell()]
+    from contracts import lists, buildfile
+    return posix_shell.registry() + [EscapeStr(), Write(), lists.Tween(), lists.NinjaWriteEach(), lists.NinjaWriteShell()] + buildfile.ninja_registry()
 
 
 LEMMAS = []
